@@ -25,6 +25,9 @@ pub struct Case {
 	/// ALPN lists tried in turn against the same server
 	pub offers: Vec<Vec<String>>,
 	pub upper_hex: bool,
+	/// the client offers TLS 1.2 at most (RFC 8737: "TLS 1.2 or higher") instead of all versions of the local OpenSSL
+	#[serde(default)]
+	pub client_max12: bool,
 }
 
 pub fn ext_text(digest: &[u8], upper: bool) -> String {
@@ -71,8 +74,9 @@ pub fn strategy() -> impl Strategy<Value = Case> {
 		proptest::sample::select(vec!["flag", "file", "stdin"]),
 		proptest::collection::vec(offer(), 2..5),
 		any::<bool>(),
+		any::<bool>(),
 	)
-		.prop_map(|((domain_cfg, domain_expected), digest, key_type, cert_digest, unix, dv, ev, offers, upper_hex)| Case {
+		.prop_map(|((domain_cfg, domain_expected), digest, key_type, cert_digest, unix, dv, ev, offers, upper_hex, client_max12)| Case {
 			domain_cfg,
 			domain_expected,
 			digest,
@@ -83,6 +87,7 @@ pub fn strategy() -> impl Strategy<Value = Case> {
 			ext_via: ev.to_string(),
 			offers,
 			upper_hex,
+			client_max12,
 		})
 }
 
@@ -134,10 +139,16 @@ pub struct Tacd {
 /// starts the shipped tacd in the foreground and waits until it accepts connections
 #[allow(clippy::too_many_arguments)]
 pub fn start_tacd(tacd: &Path, dir: &Path, case_domain: &str, ext: &str, domain_via: &str, ext_via: &str, key_type: &Option<String>, cert_digest: &Option<String>, unix: bool) -> Result<Tacd, String> {
+	start_tacd_limited(tacd, dir, case_domain, ext, domain_via, ext_via, key_type, cert_digest, unix, None)
+}
+
+/// as start_tacd, with a descriptor limit (RLIMIT_NOFILE) for the responder
+#[allow(clippy::too_many_arguments)]
+pub fn start_tacd_limited(tacd: &Path, dir: &Path, case_domain: &str, ext: &str, domain_via: &str, ext_via: &str, key_type: &Option<String>, cert_digest: &Option<String>, unix: bool, nofile: Option<u64>) -> Result<Tacd, String> {
 	// the chosen port can be taken by an unrelated process between the probe and tacd's bind: try again then
 	let mut last = String::new();
 	for _ in 0..5 {
-		match start_tacd_once(tacd, dir, case_domain, ext, domain_via, ext_via, key_type, cert_digest, unix) {
+		match start_tacd_once(tacd, dir, case_domain, ext, domain_via, ext_via, key_type, cert_digest, unix, nofile) {
 			Ok(t) => return Ok(t),
 			Err(e) if e.contains("Address already in use") => last = e,
 			Err(e) => return Err(e),
@@ -147,7 +158,7 @@ pub fn start_tacd(tacd: &Path, dir: &Path, case_domain: &str, ext: &str, domain_
 }
 
 #[allow(clippy::too_many_arguments)]
-fn start_tacd_once(tacd: &Path, dir: &Path, case_domain: &str, ext: &str, domain_via: &str, ext_via: &str, key_type: &Option<String>, cert_digest: &Option<String>, unix: bool) -> Result<Tacd, String> {
+fn start_tacd_once(tacd: &Path, dir: &Path, case_domain: &str, ext: &str, domain_via: &str, ext_via: &str, key_type: &Option<String>, cert_digest: &Option<String>, unix: bool, nofile: Option<u64>) -> Result<Tacd, String> {
 	let mut port = 0u16;
 	let (listen, target) = if unix {
 		let p = dir.join("t.sock");
@@ -194,7 +205,7 @@ fn start_tacd_once(tacd: &Path, dir: &Path, case_domain: &str, ext: &str, domain
 	}
 	let stdin_path = dir.join("stdin.txt");
 	std::fs::write(&stdin_path, &stdin_txt).map_err(|e| e.to_string())?;
-	let opts = DaemonOpts { bin: tacd.to_path_buf(), args, env: vec![], cwd: dir.to_path_buf(), stderr_path: dir.join("tacd.log"), system_trust: true, umask: None };
+	let opts = DaemonOpts { bin: tacd.to_path_buf(), args, env: nofile.map(|n| ("VERIF_NOFILE".to_string(), n.to_string())).into_iter().collect(), cwd: dir.to_path_buf(), stderr_path: dir.join("tacd.log"), system_trust: true, umask: None };
 	let mut daemon = Daemon::spawn_with_stdin(&opts, Some(&stdin_path))?;
 	let t0 = Instant::now();
 	loop {
@@ -228,14 +239,14 @@ pub fn exec(case: &Case) -> Outcome {
 	};
 	let kt = case.key_type.clone().unwrap_or_else(|| "ecdsa-p256".into());
 	let dg = case.cert_digest.clone().unwrap_or_else(|| "sha256".into());
-	let mut classes = vec![format!("key={kt}"), format!("digest={dg}"), format!("listener={}", if case.unix { "unix" } else { "tcp" }), format!("domain_via={}", case.domain_via), format!("ext_via={}", case.ext_via)];
+	let mut classes = vec![format!("key={kt}"), format!("digest={dg}"), format!("listener={}", if case.unix { "unix" } else { "tcp" }), format!("domain_via={}", case.domain_via), format!("ext_via={}", case.ext_via), format!("client_tls={}", if case.client_max12 { "<=1.2" } else { "all" })];
 	let mut refused = 0;
 	let mut accepted = 0;
 	let d = format!("domain {:?} (expected {:?}), offers {:?}", case.domain_cfg, case.domain_expected, case.offers);
 	let mut result = None;
 	for offer in case.offers.iter() {
 		let has_acme = offer.iter().any(|p| p == "acme-tls/1");
-		let r = tlsclient::handshake(&t.target, &case.domain_expected, offer, Duration::from_secs(10));
+		let r = tlsclient::handshake_v(&t.target, &case.domain_expected, offer, Duration::from_secs(10), case.client_max12);
 		if t.daemon.state() != ProcState::Alive {
 			result = Some(Outcome::fail("C16:tacd-died", format!("tacd ended ({:?}) after a handshake offering {offer:?}; {d}\n{}", t.daemon.state(), t.daemon.stderr_tail(5))));
 			break;
